@@ -107,6 +107,31 @@ def parse_tlc_log(text):
     return out
 
 
+def crash_summary(rvout, prop, stderr_text=""):
+    """The code under test killed the harness process with a fatal signal (memory error behind the C interface, abort):
+    the harness' signal handler left a replay file and an RV-CRASH line.  That is a violation, not a tool error."""
+    m = None
+    for l in open(rvout, encoding="utf-8", errors="replace"):
+        mm = re.match(r"RV-CRASH (\d+) (\S+)", l)
+        if mm:
+            m = mm
+    if not m:
+        return None
+    sig, path = int(m.group(1)), m.group(2)
+    names = {6: "SIGABRT", 11: "SIGSEGV", 7: "SIGBUS", 4: "SIGILL", 8: "SIGFPE"}
+    case = {}
+    try:
+        case = json.load(open(path, encoding="utf-8")).get("case", {})
+    except Exception:
+        pass
+    tail = " ".join(stderr_text.split()[-30:])
+    what = "the process was killed by %s while this behaviour was executed (memory error / abort in the code under test)%s" % (
+        names.get(sig, "signal %d" % sig), (": " + tail) if tail else "")
+    return {"property": prop, "behaviours": 1, "events": 0, "compared": 0, "nontrivial": 1, "violation_count": 1,
+            "violations": [{"site": "memory", "what": what, "replay": path, "case": case}],
+            "drift_count": 0, "drift_samples": [], "samples": [], "notes": {"crash_handler": 1}}
+
+
 def run_tlc_replay(run, name, module, cfg_kwargs, prop, workers=4, threads=8, timeout=3000, extra_rv=(), tlc_args=(), env_extra=None):
     """TLC model checking of `module` with Emit piped into `rv replay`.  Returns (tlc_result, rv_summary)."""
     d = run.dir
@@ -137,6 +162,10 @@ def run_tlc_replay(run, name, module, cfg_kwargs, prop, workers=4, threads=8, ti
     if p1.returncode == 124:
         raise ToolError("%s: TLC timed out after %ss" % (name, timeout))
     summ = read_summary(rvout)
+    if summ is None:
+        summ = crash_summary(rvout, prop, err.decode(errors="replace"))
+        if summ is not None:
+            tlc["error"] = None      # TLC was cut off by the dying harness: not a tool error
     if summ is None:
         raise ToolError("%s: harness produced no summary (rc=%s): %s" % (name, p2.returncode, err.decode()[-2000:]))
     if summ["notes"].get("garbled_replay_lines"):
@@ -335,7 +364,9 @@ def finish(run):
     for s in run.summaries:
         total_viol += s["violation_count"]
         for v in s["violations"]:
-            if run.sites is not None and v.get("site") not in run.sites:
+            # (site 'memory': the code under test killed the process on an input of this check - the exploration was cut
+            #  short by the engine itself, which no property tolerates)
+            if run.sites is not None and v.get("site") not in run.sites and v.get("site") != "memory":
                 other_sites[v.get("site")] = other_sites.get(v.get("site"), 0) + 1
                 continue
             k = match_known(pid, v, known)
